@@ -348,7 +348,7 @@ class AdjointSDE(base_sde.BaseSDE):
                 inputs=y,
                 allow_unused=True,
                 retain_graph=True,
-                create_graph=requires_grad
+                create_graph=True  # Differentiated again below.
             )
             prod_partials_adj_y_and_params = misc.vjp(
                 outputs=g,
@@ -358,16 +358,12 @@ class AdjointSDE(base_sde.BaseSDE):
                 retain_graph=True,
                 create_graph=requires_grad
             )
-            avg_dg_vjp, = misc.vjp(
-                outputs=g,
-                inputs=y,
-                grad_outputs=(adj_y * v2 * g).detach(),
-                allow_unused=True,
-                create_graph=True
-            )
+            # sum_i (a v2 g)_i d(dg_i/dy_i)/d(y, params). The weight is a cotangent: it is held fixed by this
+            # differentiation without being cut out of the graph, so the result stays differentiable in a, y and params.
             mixed_partials_adj_y_and_params = misc.vjp(
-                outputs=avg_dg_vjp.sum(),
+                outputs=dgdy,
                 inputs=[y] + self.params,
+                grad_outputs=adj_y * v2 * g,
                 allow_unused=True,
                 retain_graph=True,
                 create_graph=requires_grad
